@@ -17,6 +17,8 @@ pub mod abi;
 pub mod collections;
 pub mod ledger;
 pub mod schemapairs;
+#[cfg(not(kani))]
+pub mod native_misc;
 
 #[macro_use]
 mod reg;
@@ -52,6 +54,14 @@ fn native_misc_registry() -> Vec<(&'static str, fn(&mut crate::src::EnumSrc))> {
         ("nschema_socketaddr", (|s: &mut crate::src::EnumSrc| crate::schemaread::schema_socketaddr(s)) as fn(&mut crate::src::EnumSrc)),
         // n(nschema_evermid_old, "C12", "derive WithSchema: variants filtered by version (EVerMid at version 1)", "all values representable at version 1");
         ("nschema_evermid_old", (|s: &mut crate::src::EnumSrc| crate::schemaread::schema_evermid_old(s)) as fn(&mut crate::src::EnumSrc)),
+        // n(nfault_library, "C08", "Serializer::save_impl; Deserializer::load_impl; savefile::save; savefile::load; Serialize/Deserialize for String, Vec<T>, Option, tuples, BTreeMap, Box<[T]>", "6 container shapes, lengths <= 40; every write-failure offset, flush failure, short writes 1..3 with Interrupted patterns, every read-failure offset, chunked reads 1..4");
+        ("nfault_library", (|s: &mut crate::src::EnumSrc| crate::native_misc::fault_library(s)) as fn(&mut crate::src::EnumSrc)),
+        // n(ntrunc_library, "C07", "Deserializer::read_string; Deserializer::read_usize; regular_deserialize_vec; Deserialize for Vec<T> (bulk path); Deserializer::load_impl", "String/Vec<u8>/Vec<u32>/tuple/BTreeMap with lengths 0..70000; every cut for files <= 96 bytes, else cuts around both ends, every power of two, 4096/8192 from the end");
+        ("ntrunc_library", (|s: &mut crate::src::EnumSrc| crate::native_misc::trunc_library(s)) as fn(&mut crate::src::EnumSrc)),
+        // n(nintro_library, "C17", "Introspect::introspect_len; Introspect::introspect_child for the hand-written impls (collections, maps, sets, Option, Result, Box, Rc, Arc, RefCell, Mutex, RwLock, tuples, arrays, Schema, BitVec, ArrayVec, SmallVec, IndexMap, IndexSet, Range)", "32 value shapes with <= 3 elements (incl. a poisoned std Mutex and a RefCell with a shared borrow outstanding), checked recursively to depth 3, indices 0..len, len..2len+1 and near usize::MAX");
+        ("nintro_library", (|s: &mut crate::src::EnumSrc| crate::native_misc::intro_library(s)) as fn(&mut crate::src::EnumSrc)),
+        // n(nintro_navigate, "C17", "Introspector::do_introspect; Introspector::impl_get_frames; IntrospectionResult::total_index; IntrospectionResult::total_len", "3 objects, sequences of <= 3 commands (first 2,000,000 combinations in enumeration order) (Nothing, Up, SelectNth, ExpandElement) with depths/indices from {0,1,2,5,usize::MAX}, with and without child limit");
+        ("nintro_navigate", (|s: &mut crate::src::EnumSrc| crate::native_misc::intro_navigate(s)) as fn(&mut crate::src::EnumSrc)),
         // n(pairs_diff, "C05,C13,C15", "diff_schema; diff_enum; diff_fields; diff_primitive", "pairs of one-variant enums with <= 2 primitive fields; discriminants/widths from small domains");
         ("pairs_diff", (|s: &mut crate::src::EnumSrc| crate::schemapairs::diff_pairs(s)) as fn(&mut crate::src::EnumSrc)),
         // n(pairs_layout, "C11", "Schema::layout_compatible; SchemaEnum/Variant/Field::layout_compatible", "pairs of one-variant enums with <= 2 primitive fields, two offsets");
